@@ -35,6 +35,9 @@ type Job struct {
 	// allocates ends as "fatal error: out of memory" in this process instead of exhausting the machine
 	// (not usable in race-instrumented builds, which reserve a large shadow region)
 	MemLimitMB int `json:"mem_limit_mb,omitempty"`
+	// Reuse: after every successful run, generate once more from the same parsed document (no second parse); the
+	// result is logged as run 1000+run of the same item
+	Reuse bool `json:"reuse,omitempty"`
 }
 
 type Line struct {
@@ -172,6 +175,19 @@ func main() {
 				l.Order = strings.Join(res.FS.Order, ",")
 			}
 			emit(l)
+			if job.Reuse && res.OK() && !it.NoWrite {
+				res2 := it.RunAgain(res, hook)
+				l2 := Line{ID: it.ID, Run: 1000 + run, Stage: res2.Stage, Panic: res2.Panic, PanicAt: res2.PanicAt, Procs: runtime.GOMAXPROCS(0)}
+				if res2.Err != nil {
+					l2.Err = res2.Err.Error()
+				}
+				if res2.OK() {
+					l2.Digest = res2.Digest()
+					l2.Files = res2.Hashes()
+					l2.Order = strings.Join(res2.FS.Order, ",")
+				}
+				emit(l2)
+			}
 		}
 	}
 	out.Close()
